@@ -337,6 +337,9 @@ func testC19Local(t *testing.T) {
 
 func TestC19Local(t *testing.T) { testC19Local(t) }
 
+// c19Abandoned stands for "a valid patch inside a user transaction that returns an error" among the refused patches.
+const c19Abandoned = "<a valid patch inside a transaction that the user abandons>"
+
 // TestC19Invalid: targets outside the domain must be refused cleanly (no panic, nothing changes).
 func TestC19Invalid(t *testing.T) {
 	col := stats.New("C19", t.Name(),
@@ -358,13 +361,26 @@ func TestC19Invalid(t *testing.T) {
 			c.failf("HARNESS-ERROR: %v", err)
 		}
 		doc := w.Reps[r].DT.(orda.Document)
-		bad := rapid.SampledFrom([]string{`[1,2]`, `[]`, `"str"`, `12`, `true`, `null`, `{`, ``, `{"a":}`, `{"a":null}`, `{"a":{"b":null}}`, `{"a":[1,null]}`, `nul`, `{"zz1":1,"zz2":null}`, `{"zz1":1,"zz2":{"x":2},"zz3":[null]}`}).Draw(c.rt, "bad")
+		bad := rapid.SampledFrom([]string{`[1,2]`, `[]`, `"str"`, `12`, `true`, `null`, `{`, ``, `{"a":}`, `{"a":null}`, `{"a":{"b":null}}`, `{"a":[1,null]}`, `nul`, `{"zz1":1,"zz2":null}`, `{"zz1":1,"zz2":{"x":2},"zz3":[null]}`, c19Abandoned, c19Abandoned}).Draw(c.rt, "bad")
 		c.j.Header = map[string]interface{}{"start": string(sb), "target": bad, "replica": r}
 		before, bops := sim.Canon(doc.GetValue()), len(w.Reps[r].Buffer())
 		var perr error
 		var pan interface{}
 		func() {
 			defer func() { pan = recover() }()
+			if bad == c19Abandoned {
+				// a valid patch inside a transaction that the user abandons afterwards: everything is rolled back
+				ab, _ := json.Marshal(c19Object(c.rt, "abandoned", 2))
+				if te := doc.Transaction("abandoned", func(d orda.DocumentInTx) error {
+					if _, pe := d.PatchByJSON(string(ab)); pe != nil {
+						return pe
+					}
+					return fmt.Errorf("abandoned by the user")
+				}); te != nil {
+					perr = te
+				}
+				return
+			}
 			if _, e := doc.PatchByJSON(bad); e != nil {
 				perr = e
 			}
